@@ -12,7 +12,7 @@ git apply "$src/$m.diff" || { echo "RESULT apply-failed"; exit 1; }
 a=$(cd go && go test -vet=off -count=1 ./... 2>&1 | grep -c "^ok")
 fa=$(cd go && go test -vet=off -count=1 ./... 2>&1 | grep -c "^FAIL\|^---  FAIL\|^--- FAIL")
 cp "$src/${m}_demo_test.go" go/$pkg/
-b=$(cd go && go test -vet=off -count=1 -run "Test$m" "$@" ./$pkg/ 2>&1 | tail -1)
+b=$(cd go && timeout 900 go test -vet=off -count=1 -timeout 800s -run "Test$m" "$@" ./$pkg/ 2>&1 | tail -1)
 git checkout -q -- .
-c=$(cd go && go test -vet=off -count=1 -run "Test$m" "$@" ./$pkg/ 2>&1 | tail -1)
+c=$(cd go && timeout 900 go test -vet=off -count=1 -timeout 800s -run "Test$m" "$@" ./$pkg/ 2>&1 | tail -1)
 echo "RESULT suite_ok_pkgs=$a suite_fail_lines=$fa | with-change: $b | without: $c"
